@@ -256,3 +256,22 @@ pub fn replay_target(_ctx: &Ctx, target: Target, case: &Value) -> Report {
     }
     rep
 }
+
+/// one case for the coverage-guided driver: Some((signature, message, replay)) on a finding
+pub fn fuzz_one(target: &str, spec: &WorldSpec, ops: &[Op]) -> Option<(String, String, Value)> {
+    let t = match target {
+        "C01" => Target::C01,
+        "C02" => Target::C02,
+        "C03" => Target::C03,
+        "C06" => Target::C06,
+        "C16" => Target::C16,
+        "C17" => Target::C17,
+        _ => return None,
+    };
+    let mut stats = SeqStats::default();
+    let mut notes = vec![];
+    match run_case(t, spec, ops, &mut stats, &mut notes) {
+        Ok(()) => None,
+        Err((sig, msg)) => Some((sig, msg, json!({"spec": spec, "ops": ops}))),
+    }
+}
